@@ -143,12 +143,12 @@ def run(ctx, tier: str, seed: int) -> None:
                 bound=f"group > segment > free text; every expression triple from a pool of {len(pool)} (SOLL as "
                       f"Soll/S/soll/SOLL/sOLL, bare, with conditions, in multi modal mark expressions, with hint, format "
                       f"constraint, package, invalid, undetermined) x {len(cers)} content evaluation results x both flags")
-    small = pool[:8] if not thorough else pool
+    small = pool[:7] if not thorough else pool
     G.run_cases(ctx, "segment-entry-points", segment_entry(small, cers), check_case, MODULE, RULE, exhaustive=True,
                 bound=f"segment > two free texts; every expression triple from a pool of {len(small)} x {len(cers)} "
                       f"content evaluation results x both flags x validate_segment_level / validate_segment with "
                       f"parent IS_REQUIRED / IS_OPTIONAL")
-    depth, n = (3, 60_000) if thorough else (2, 9_000)
+    depth, n = (3, 60_000) if thorough else (2, 7_000)
     G.run_cases(ctx, f"sampled-trees-depth{depth}", sampled(rng, n, depth, G.POOL_C14, entry_pool, cers), check_case,
                 MODULE, RULE, exhaustive=False,
                 bound=f"{n} seeded random trees (1-2 root groups, <= {depth} nested group levels, <= 2 children of "
